@@ -21,6 +21,9 @@ type C01Case struct {
 	WriteSizes []int      `json:"write_sizes,omitempty"`
 	ReadJobs   uint       `json:"read_jobs"`
 	ReadBufs   []int      `json:"read_bufs,omitempty"`
+	// CtxReader (headerless streams only): the reader is built with NewReaderWithCtx from a context that describes
+	// the stream but leaves out the optional "bsVersion" entry, instead of NewHeaderlessReader
+	CtxReader bool `json:"ctx_reader,omitempty"`
 }
 
 func (c C01Case) render() map[string]any {
@@ -128,7 +131,13 @@ func runC01(r *vrt.Run, c C01Case) (msg string) {
 	default:
 		labels = append(labels, "blocks:multi-batch")
 	}
-	out, err := Decompress(stream, c.Cfg, c.ReadJobs, c.ReadBufs)
+	var out []byte
+	if c.CtxReader && c.Cfg.Headerless {
+		labels = append(labels, "reader:ctx-without-bsversion")
+		out, err = DecompressWith(stream, c.Cfg, c.ReadJobs, c.ReadBufs, map[string]any{"verif.nobsversion": true}, nil)
+	} else {
+		out, err = Decompress(stream, c.Cfg, c.ReadJobs, c.ReadBufs)
+	}
 	r.Eval(vrt.HashOf(c), nontrivial, labels...)
 	if nontrivial && r.WantSample() {
 		m := c.render()
@@ -185,6 +194,9 @@ func drawC01(t *rapid.T, maxBlock, maxTotal int) C01Case {
 		c.WriteSizes = rapid.SliceOfN(rapid.OneOf(rapid.IntRange(0, 17), rapid.IntRange(bs-1, bs+1), rapid.IntRange(0, 3*bs)), 1, 12).Draw(t, "writeSizes")
 	}
 	c.ReadJobs = gen.DrawJobs(t, 64, "readJobs")
+	if c.Cfg.Headerless {
+		c.CtxReader = rapid.Bool().Draw(t, "ctxReader")
+	}
 	if rapid.IntRange(0, 2).Draw(t, "rbufs") == 0 {
 		c.ReadBufs = rapid.SliceOfN(rapid.OneOf(rapid.IntRange(0, 9), rapid.IntRange(bs-1, bs+1), rapid.IntRange(1, 4*bs)), 1, 8).Draw(t, "readBufs")
 		if c.ReadBufs[len(c.ReadBufs)-1] == 0 {
